@@ -6,6 +6,7 @@ are an explicit finite set P: OPTIMAL is checked against every p in P (continuou
 """
 
 import importlib
+import random
 import itertools
 from fractions import Fraction
 
@@ -41,13 +42,14 @@ def dot(a, b):
     return ssum(x * y for x, y in zip(a, b))
 
 
-def h_milp(s, rows, c, U, integers, minimize, heuristics=True, warm=None, lns=0, solution_limit=1):
+def h_milp(s, rows, c, U, integers, minimize, heuristics=True, warm=None, lns=0, solution_limit=1, b_fixed=None):
     Status = importlib.import_module("solvor.types").Status
     mod = importlib.import_module("solvor.milp")
     smod = importlib.import_module("solvor.simplex")
     n = len(c)
     sym = s.symbolic
-    b_gen = [s.int("b%d" % i, -20, 20) for i in range(len(rows))]
+    # b_fixed: concrete right-hand side (used with symbolic warm starts: the tree is then small enough to be exhausted)
+    b_gen = list(b_fixed) if b_fixed is not None else [s.int("b%d" % i, -20, 20) for i in range(len(rows))]
     Us = list(U) if isinstance(U, (list, tuple)) else [U] * n
     A = [list(r) for r in rows] + [[1 if k == j else 0 for k in range(n)] for j in range(n)]
     b = list(b_gen) + Us
@@ -127,6 +129,63 @@ def h_milp(s, rows, c, U, integers, minimize, heuristics=True, warm=None, lns=0,
     s.observe("x_len", len(x))
 
 
+def branching_cells(rng, want):
+    """Concrete mixed cells on which the root relaxation is fractional, so that solve_milp really branches and a warm start becomes the
+    incumbent (with an integral root it returns before looking at it). Found by rejection sampling with a native run; the selection only
+    steers the generator - every verdict on the selected cells is still an obligation on the symbolic run."""
+    mod = importlib.import_module("solvor.milp")
+    out, tries = [], 0
+    while len(out) < want and tries < 4000:
+        tries += 1
+        n = rng.choice([2, 3])
+        rows = [[rng.choice((-2, -1, 1, 2, 3)) for _ in range(n)] for _ in range(rng.choice([1, 2]))]
+        c = [rng.randint(-3, 3) for _ in range(n)]
+        ints = sorted(rng.sample(range(n), n - 1))
+        U = [rng.choice([1, 2, 3]) for _ in range(n)]
+        bf = [rng.randint(1, 7) for _ in rows]
+        mn = rng.random() < 0.5
+        A = [[float(v) for v in r] for r in rows] + [[1.0 if k == j else 0.0 for k in range(n)] for j in range(n)]
+        try:
+            r = mod.solve_milp([float(v) for v in c], A, [float(v) for v in bf] + [float(u) for u in U], ints, minimize=mn, max_nodes=200)
+        except Exception:  # noqa: BLE001
+            continue
+        if r.iterations > 1 and r.solution is not None:
+            out.append({"rows": rows, "c": c, "U": U, "integers": ints, "minimize": mn, "b_fixed": bf})
+    return out
+
+
+def binary_looking_cells(rng, want):
+    smod = importlib.import_module("solvor.simplex")
+    Status = importlib.import_module("solvor.types").Status
+    out, tries = [], 0
+    while len(out) < want and tries < 6000:
+        tries += 1
+        k = len(out)
+        cont = k % 3
+        ints = [j for j in range(3) if j != cont]
+        wide = ints[(k // 3) % 2]
+        U = [1, 1, 1]
+        U[wide] = 2 + (k // 6) % 2
+        rows = [[rng.choice((-2, -1, 0, 1, 2)) for _ in range(3)] for _ in range(2)]
+        c = [rng.randint(-3, 3) for _ in range(3)]
+        A = [[float(v) for v in r] for r in rows] + [[1.0 if kk == j else 0.0 for kk in range(3)] for j in range(3)]
+        ok = False
+        for _ in range(25):
+            bf = [rng.randint(-4, 4) for _ in rows]
+            mn = rng.random() < 0.5
+            try:
+                r = smod.solve_lp([float(v) for v in c], A, [float(v) for v in bf] + [float(u) for u in U], minimize=mn)
+            except Exception:  # noqa: BLE001
+                continue
+            if r.status == Status.OPTIMAL and all(-1e-9 <= r.solution[j] <= 1 + 1e-9 for j in ints) and \
+                    any(abs(r.solution[j] - round(r.solution[j])) > 1e-6 for j in ints):
+                ok = True
+                break
+        if ok:
+            out.append((rows, c, U, ints))
+    return out
+
+
 def items(tier, rng):
     out = []
     q = tier == "quick"
@@ -151,6 +210,11 @@ def items(tier, rng):
         c = [rng.randint(-2, 3) for _ in range(3)]
         ints = sorted(rng.sample(range(3), 2))
         cells.append((rows, c, [rng.choice([1, 1, 3]) for _ in range(3)], ints))
+    # bound-row patterns: one integer variable with x <= 1, the other integer variable wide, the continuous one with x <= 1 (every placement):
+    # "all integer variables carry an explicit x_j <= 1 row" must not be confused with "as many x_j <= 1 rows as integer variables".
+    # Rows/costs are kept only if SOME right-hand side gives a fractional root relaxation with all integer variables in [0,1] (the situation
+    # in which the solver considers clamping); the right-hand side itself stays symbolic.
+    cells += binary_looking_cells(random.Random(rng.randrange(1 << 30)), 30 if q else 240)
     for ci, (rows, c, U, ints) in enumerate(cells):
         for minimize in ((True, False) if ci % 2 == 0 else (rng.random() < 0.5,)):
             base = {"rows": rows, "c": c, "U": U, "integers": ints, "minimize": minimize}
@@ -167,4 +231,10 @@ def items(tier, rng):
                 out.append({"name": "milp_warm_badlen", "harness": "h_milp", "params": dict(base, warm=w + [0]), "max_paths": 400, "spread": rng.randrange(1 << 30)})
             if U == 1 and ci % 2 == 0:  # all-binary family
                 out.append({"name": "milp_lns", "harness": "h_milp", "params": dict(base, lns=1), "max_paths": 80, "spread": rng.randrange(1 << 30)})
+    # symbolic warm start on concrete cells that branch: acceptance of the incumbent and everything after it, for ALL warm vectors
+    for cell in branching_cells(random.Random(rng.randrange(1 << 30)), 24 if q else 240):
+        out.append({"name": "milp_warm_sym_branching", "harness": "h_milp", "max_paths": 400, "spread": rng.randrange(1 << 30),
+                    "params": dict(cell, warm="symbolic")})
+        out.append({"name": "milp_warm_sym_branching", "harness": "h_milp", "max_paths": 400, "spread": rng.randrange(1 << 30),
+                    "params": dict(cell, warm="symbolic", heuristics=False, solution_limit=2)})
     return out
